@@ -1258,7 +1258,7 @@ func upperGuarded(fn *ssa.Function, blk *ssa.BasicBlock, at ssa.Instruction, bas
 }
 
 func ruleIndexGuard(c *Ctx) {
-	c.Rule("INDEX-GUARD", "Every read of a byte slice at the cursor (index = a loaded cursor field such as p.i or r.pos) or ahead of a position (index = V + k with a constant k >= 1) in package commonmark is dominated by a branch that established an upper bound on that very index (G < B or the false edge of G >= B, with G the index or the index plus a non-negative constant). Indices counted from the end (len-1, End-1), range/loop counters and positions taken from node spans are outside this rule. A dropped bound on a look-ahead or cursor read is an index-out-of-range panic for input that ends right there.")
+	c.Rule("INDEX-GUARD", "Every read of a byte slice at the cursor (index = a loaded cursor field such as p.i or r.pos) or ahead of a position (index = V + k with a constant k >= 1), or at a position that is also used as the exclusive end of a slice of the same bytes (it may equal the length), in package commonmark is dominated by a branch that established an upper bound on that very index (G < B or the false edge of G >= B, with G the index or the index plus a non-negative constant). Indices counted from the end (len-1, End-1), range/loop counters and positions taken from node spans are outside this rule. A dropped bound on a look-ahead or cursor read is an index-out-of-range panic for input that ends right there.")
 	p := c.P
 	n := 0
 	perFn := map[*ssa.Function]int{}
@@ -1303,6 +1303,35 @@ func ruleIndexGuard(c *Ctx) {
 					return
 				}
 				form = "look-ahead"
+			}
+			if form == "" {
+				// an end position: the same value is the (exclusive) high bound of a slice of the same byte slice somewhere
+				// in the function, so it may equal the length
+				// (not from-the-end arithmetic such as s[e-1] next to s[:e-1], and not positions taken from node spans,
+				// which are outside this rule)
+				fromEnd := false
+				if bo, ok := ia.Index.(*ssa.BinOp); ok && bo.Op == token.SUB {
+					fromEnd = true
+				}
+				isSpanPos := false
+				switch y := ia.Index.(type) {
+				case *ssa.Field:
+					isSpanPos = typeName(y.X.Type()) == "Span"
+				case *ssa.UnOp:
+					if fa, ok := y.X.(*ssa.FieldAddr); ok {
+						tn, _, _ := fieldAddrInfo(fa)
+						isSpanPos = tn == "Span"
+					}
+				}
+				if !fromEnd && !isSpanPos {
+					eachInstr(fn, func(x ssa.Instruction) {
+						if s2, ok := x.(*ssa.Slice); ok && s2.High != nil && (s2.X == ia.X || sameTerm(s2.X, ia.X)) {
+							if s2.High == ia.Index || sameTerm(s2.High, ia.Index) {
+								form = "end-position"
+							}
+						}
+					})
+				}
 			}
 			if form == "" {
 				return
